@@ -19,6 +19,11 @@ ACTIONS = ["Setup", "ParseChallenge", "FetchPRM", "FallbackRootAS", "FetchASM", 
            "GetCode", "CheckState", "CheckIss", "Exchange", "Install", "Finish"]
 RESULTS = ["ok", "nil403", "parse", "no_as", "asm", "prereg", "dcr", "noreg", "fetcher", "state", "iss", "exchange", "post"]
 SAFE = ("https", "lo")
+# relation classes of an issuer identifier (OAuthFlow.tla: IssSame, IssEquiv, IssNear); used here only to name
+# signatures and to check that every class was concretised (the verdict is the monitor's)
+ISS_MATCH = ("exact", "slash", "case", "dot")
+ISS_NEAR = ("port", "scheme", "userinfo", "query", "fragment", "hostsfx", "sub", "prefix")
+ISS_EQUIV = ("case", "dot")
 
 
 # --------------------------------------------------------------------------
@@ -206,7 +211,7 @@ def primary_sigs(e):
         if r["cls"] not in SAFE:
             sigs.setdefault("OnlySafeURLs", set()).add("OnlySafeURLs:%s:%s:%s" % (r["kind"], r["cls"], origin_of(e, r)))
     for d in used_docs(e):
-        ok = d["match"] == "exact" if d["kind"] == "prm" else d["match"] in ("exact", "slash")
+        ok = d["match"] == "exact" if d["kind"] == "prm" else d["match"] in ISS_MATCH
         if not ok:
             sigs.setdefault("UsedOnlyIfMatching", set()).add("UsedOnlyIfMatching:%s:%s" % (d["kind"], d["var"]))
         if d["kind"] == "asm" and not d["pkce"]:
@@ -220,7 +225,7 @@ def primary_sigs(e):
     pres = [r["pre"] for r in e["reqs"] if r["cred"] == "prereg"]
     if e["auth"]["called"] and e["auth"]["cred"] == "prereg":
         pres.append(e["auth"]["pre"])
-    if any(p not in ("unset", "exact", "slash") for p in pres):
+    if any(p != "unset" and p not in ISS_MATCH for p in pres):
         sigs.setdefault("PreregBoundToIssuer", set()).add("PreregBoundToIssuer:p=%s" % e["cfg"]["p"])
     return sigs, authsig
 
@@ -245,7 +250,10 @@ def run(tier, seed, replay):
     v.assumptions = [
         "TLS is not exercised: the injected http.Client has a fake RoundTripper; redirects are not scripted",
         "golang.org/x/oauth2 performs the token request it is asked to (its request is observed at the RoundTripper)",
-        "issuer identifiers match modulo one trailing slash (the SDK's documented tolerance); resource identifiers must be identical",
+        "issuer identifiers match modulo one trailing slash (the SDK's documented tolerance); a different port, scheme, userinfo, "
+        "query, fragment, host suffix or path (extra segment / strict prefix) is a different issuer; identifiers that differ only in the "
+        "letter case of scheme/host or in a trailing dot after the host are neither required to match nor counted as a mismatch "
+        "(for metadata and pre-registered credentials; the RFC 9207 iss parameter must be string-equal); resource identifiers must be identical",
         "a served document counts as 'used' iff a later request URL or the authorization URL was taken or derived from it",
         "URL classes (https / loopback / script-capable) are computed by the harness with net/url and net/netip",
     ]
@@ -354,6 +362,24 @@ def run(tier, seed, replay):
         outcomes[e["out"]["err"]] = outcomes.get(e["out"]["err"], 0) + 1
     v.cov["real_outcomes"] = outcomes
     v.cov["real_requests"] = sum(len(e["reqs"]) for e in obs_rows)
+    # vacuity of the value classes: every issuer relation class was concretised (relation computed by the harness from
+    # the concrete strings) at each place the relation is used
+    rel_seen = {"asm_issuer": {}, "prereg_issuer": {}, "iss_param": {}}
+    for e in obs_rows:
+        for d in e["served"]:
+            if d["kind"] == "asm":
+                rel_seen["asm_issuer"][d["match"]] = rel_seen["asm_issuer"].get(d["match"], 0) + 1
+        if "pre" in e["cfg"]["rc"] or e["cfg"]["rc"] == "all":
+            rel_seen["prereg_issuer"][e["cfg"]["prerel"]] = rel_seen["prereg_issuer"].get(e["cfg"]["prerel"], 0) + 1
+        if e["ares"]["issrel"] != "-":
+            rel_seen["iss_param"][e["ares"]["issrel"]] = rel_seen["iss_param"].get(e["ares"]["issrel"], 0) + 1
+    v.cov["issuer_relation_classes_observed"] = rel_seen
+    if not replay:
+        want = set(ISS_NEAR) | set(ISS_EQUIV) | {"exact", "slash", "other"}
+        missing_rel = ["%s:%s" % (k, c) for k, seen in sorted(rel_seen.items()) for c in sorted(want) if c not in seen
+                       and not (k == "iss_param" and c in ("prefix", "sub"))]
+        if missing_rel:
+            raise vlib.MachineryError("vacuity: issuer relation classes never concretised: %s" % missing_rel)
     for e in obs_rows[:: max(1, len(obs_rows) // 4)][:4]:
         v.sample({"id": e["id"], "requests": [[r["method"], r["url"]] for r in e["reqs"]], "err": e["out"]["err"], "changed": e["out"]["changed"]})
     # 4. the monitor: verdict and drift
